@@ -284,7 +284,22 @@ async fn with_peer(version: u8) {
     // ---- the peer's script ----
     let mut peer = Peer::new(sink_p, stream_p);
     let t = Duration::from_secs(20);
-    let Some(a_hello) = peer.handshake(peer_hello.clone(), junk).await else {
+    // Foreign frames between the peer's Reset and its Hello are ignored as well: an undecodable frame,
+    // a truncated Hello followed by a fresh start, a decodable stale message.
+    let between: Vec<Vec<u8>> = match kit::draw(5) {
+        0 | 1 => vec![],
+        2 => vec![vec![0x63, 1, 2]],
+        3 => {
+            let mut h = proto::encode(&peer_hello);
+            h.truncate(kit::draw_range(2, 20) as usize);
+            vec![h, proto::encode(&Frame::Reset)]
+        }
+        _ => vec![proto::encode(&Frame::Goodbye), vec![]],
+    };
+    if !between.is_empty() {
+        kit::probe("junk_between_reset_and_hello");
+    }
+    let Some(a_hello) = peer.handshake_ext(peer_hello.clone(), junk, between).await else {
         viol("handshake-failed", format!("the real endpoint did not complete the handshake with a version {version} peer ({peer_hello:?})"));
         return;
     };
@@ -608,7 +623,7 @@ non-trivial = the scenario's interoperability exchange completed; distinct = dis
             "Data/first=0/last=0", "Data/first=0/last=1", "Data/first=1/last=0", "Data/first=1/last=1",
             "PortData/first=1/last=1/wait=0/ids=1", "PortData/first=1/last=1/wait=1/ids=1", "PortData/first=1/last=0/wait=1/ids=1",
             "PortData/first=0/last=1/wait=1/ids=1", "PortData/first=1/last=1/wait=1/ids=0",
-            "peer_v3_ok", "peer_v2_ok", "peer_echo_ok", "peer_port_batch_ok", "io_transfer_ok", "io_frame_parsed",
+            "peer_v3_ok", "peer_v2_ok", "junk_between_reset_and_hello", "peer_echo_ok", "peer_port_batch_ok", "io_transfer_ok", "io_frame_parsed",
         ],
         real_components: REAL_CHMUX,
         stub_components: STUB_NET,
